@@ -525,7 +525,22 @@ func (h *hostile) auxParsers() {
 			if c.Prob(2, 3) {
 				s = append(s, ' ')
 				s = append(s, keys[c.Intn(len(keys))]...)
-				s = append(s, c.Blob(c.Intn(4), "digits")...)
+				if c.Prob(1, 3) {
+					// a long value from ONE narrow class of octets (UTF-8 continuation octets as in GBK text, 0xff,
+					// blanks, digits): cutting or scanning such a run never meets the octet a loop waits for
+					class := [][2]byte{{0x80, 0xbf}, {0xb0, 0xab}, {0xff, 0xff}, {0xc0, 0xc1}, {0x20, 0x20}, {0x30, 0x39}, {0x00, 0x00}, {0xf0, 0xf4}}[c.Intn(8)]
+					run := c.Blob(1+c.Intn(48), "any")
+					for i := range run {
+						lo, hi := class[0], class[1]
+						if hi < lo {
+							lo, hi = hi, lo
+						}
+						run[i] = lo + run[i]%(hi-lo+1)
+					}
+					s = append(s, run...)
+				} else {
+					s = append(s, c.Blob(c.Intn(4), "digits")...)
+				}
 			}
 		}
 	case 3: // triplet-like tails
@@ -700,12 +715,15 @@ func (h *hostile) framers(s []byte) {
 			conn := simnet.NewSimConn(simnet.Compact, 64, nil)
 			conn.Arrive(s)
 			conn.Fail(io.EOF)
+			if len(s)%2 == 1 {
+				conn.SegPeek = func(avail, n int) int { return (n + 1) / 2 } // a segmented receive buffer
+			}
 			got := 0
 			p := h.r.Call(site, func() {
 				for i := 0; i < 8; i++ {
 					var f []byte
 					var err error
-					if nx, _ := conn.Peek(4); len(nx) == 4 && binary.BigEndian.Uint32(nx) > 1<<20 {
+					if nx := conn.Unread(); len(nx) >= 4 && binary.BigEndian.Uint32(nx) > 1<<20 {
 						return // see above: not this scenario's question
 					}
 					if blocked {
